@@ -312,6 +312,14 @@ func (gr *genRun) defaultDrains(rf *RecFacts) bool {
 		}
 	}
 	visit(fd.Body.List, false)
+	// the drain and the restore may be deferred (they then run at every exit):
+	// the arm itself only returns the latch. That the latch is read before the
+	// deferred Drain runs is C08's concern, not this property's.
+	if lim := rf.M[mSR].Lim; found && lim.DeferredDrain && lim.DeferredRestore && len(unknown) == 1 {
+		if rs, ok := unknown[0].(*ast.ReturnStmt); ok && len(rs.Results) == 1 && wire.Canon(rs.Results[0]) == "r.Err" {
+			return true
+		}
+	}
 	if !found || len(unknown) != 3 {
 		return false
 	}
@@ -373,7 +381,7 @@ func checkC06(c *core.Ctx) {
 }
 
 func checkC07(c *core.Ctx) {
-	c.Explainf("C07 (decided clauses). R1: the checked decoder (UnmarshalBebop) of every explored shape reaches no unchecked helper (MustReadStringBytes*, MustMake*FromBytes); R2: every allocation sized by a count read from the input is preceded by a check relating that count to the remaining input — byte path sites and stream path sites are enumerated; R3: every count-bounded loop of the checked byte decoder contains, per iteration, a length check or a self-checking read, so iterations are bounded by len(buf); R4: no panic() is reachable from the iohelp functions the checked decoders call. R0: every read of the checked byte decoder is covered by a length check (the same analysis as C06/R1: an uncovered read is a panic on hostile input) and the checked string readers guard their slices; R3d: Drain terminates on any error. NOT decided: actual memory/time.")
+	c.Explainf("C07 (decided clauses). R1: the checked decoder (UnmarshalBebop) of every explored shape reaches no unchecked helper (MustReadStringBytes*, MustMake*FromBytes); R2: every allocation sized by a count read from the input is preceded by a check relating that count to the remaining input — byte path sites and stream path sites are enumerated; R3: every count-bounded loop of the checked byte decoder contains, per iteration, a length check or a self-checking read, so iterations are bounded by len(buf); R4: no panic() is reachable from the iohelp functions the checked decoders call. R0: every read of the checked byte decoder is covered by a length check (the same analysis as C06/R1: an uncovered read is a panic on hostile input) and the checked string readers guard their slices; R3d: Drain terminates on any error. R5s: after a failed read no stream reader decodes stale scratch bytes (= C06/R3): a stale length prefix read back as a count is an allocation the input does not pay for. NOT decided: actual memory/time.")
 	gr := startGen(c)
 	if gr == nil {
 		return
@@ -417,6 +425,7 @@ func checkC07(c *core.Ctx) {
 	iohelpNoPanic(c, gr.p, "R4")
 	iohelpCheckedStrings(c, gr.p, "R0s")
 	iohelpDrain(c, gr.p, "R3d", false)
+	iohelpStaleReads(c, gr.p, "R5s")
 	gr.sample(2)
 }
 
